@@ -859,6 +859,7 @@ impl ParserListener for Screen {
     ///
     /// This method accepts any number of positional arguments as some `clear` implementations include a `;` after the first parameter causing the stream to assume a `0` second parameter.
     fn erase_in_display(&mut self, how: Option<u32>, _private: Option<bool>) {
+        let how = Some(how.unwrap_or(0));
         let interval: std::ops::Range<u32> = match how {
             Some(0) => self.cursor.y + 1..self.lines,
             Some(1) => 0..self.cursor.y,
